@@ -87,6 +87,14 @@ def f1_shared(tier="thorough"):
     out.append(["Add", s, ["Multiply", s, s], ["NthPower", s, 3]])
     out.append(["Multiply", ["Exponential", t], ["Logarithm", ["Add", t, ["const", 2]]], t])
     out.append(["Divide", ["NthRoot", s, 3], ["Add", s, ["const", 1]]])
+    # a shared node that can itself be outside its domain, and structurally equal but distinct operands of a binary node
+    u = ["share", "u", ["Logarithm", X, 2]]
+    r = ["share", "r", ["Reciprocal", ["Minus", X, ["const", 1]]]]
+    out.append(["Add", ["Multiply", ["const", 2], u], ["const", 1]])
+    out.append(["Multiply", u, r, Y])
+    out.append(["Power", ["Add", X, ["const", 1]], ["Add", X, ["const", 1]]])
+    out.append(["Minus", ["NthPower", X, 2], ["NthPower", X, 2]])
+    out.append(["Divide", ["Sine", ["Multiply", X, Y]], ["Sine", ["Multiply", X, Y]]])
     return out
 
 
